@@ -5,7 +5,7 @@ from ..core import Run, ToolError
 from . import c02
 
 TIERS = {"quick": dict(maxalts=4, per_set=8, sim=dict(num=60, workers=4, maxnodes=30, minnodes=12)),
-         "thorough": dict(maxalts=5, per_set=320, sim=dict(num=30, workers=8, maxnodes=40, minnodes=14))}
+         "thorough": dict(maxalts=5, per_set=384, sim=dict(num=30, workers=8, maxnodes=40, minnodes=14))}
 
 
 def trace_cfg(run):
@@ -24,8 +24,8 @@ def model(run, maxalts):
     cases = res.printed("CASE")
     cfgs = [c for c in cases if c["kind"] == "cfg"]
     pats = [c for c in cases if c["kind"] == "pat"]
-    if len(cfgs) != 320 or not pats:
-        raise ToolError(f"expected 320 configurations, got {len(cfgs)}; {len(pats)} patterns")
+    if len(cfgs) != 384 or not pats:
+        raise ToolError(f"expected 384 configurations, got {len(cfgs)}; {len(pats)} patterns")
     return cfgs, pats
 
 
@@ -61,7 +61,7 @@ def check(tier):
     run.cov["import_lines_differenced"] = sum(len(e["super_base"]) for e in mods)
     run.cov["distinct_nontrivial"] = len({(json.dumps(e["cfg"], sort_keys=True), e["asn"]) for e in mods})
     run.cov["exhaustive"] = False
-    run.cov["rule"] = ("TLC enumerates all 320 configurations (2^4 booleans x {0,1,3 fixed, one per imported symbol with a path ending in its name} custom imports x 5 type-annotation choices: the four the property names and one that lists Copy) and all CHOICE "
+    run.cov["rule"] = ("TLC enumerates all 384 configurations (2^4 booleans x {0,1,3 fixed, one per imported symbol with a path ending in its name} custom imports x 5 type-annotation choices: the four the property names and one that lists Copy) and all CHOICE "
                        "payload patterns; the pattern module and an information-object module are compiled under every configuration, generated "
                        "module sets (Notation.tla) under per_set configurations each; every output is differenced against the default "
                        "configuration's; non-trivial = distinct (configuration, module text)")
